@@ -266,3 +266,109 @@ Proof.
   { apply H; [left; reflexivity|right; left; reflexivity|]. exact collision_keys. }
   discriminate E.
 Qed.
+
+(* ------------------------------------------------------------------ [F] prune_spec on the generated files *)
+Definition map_properties : json :=
+  match jget Validator.K_properties schema_map with Some p => p | None => JNull end.
+Definition reach_fuel : nat := (40 * length schema_files)%nat.
+Definition spec_root (v : num) : json :=
+  match schema_map with
+  | JObj items => JObj (od_set Validator.K_properties (lprune schema_files v map_properties) items)
+  | other => other
+  end.
+
+Definition spec_check (r : num) : bool :=
+  match prune_entry r map_entry with
+  | Ok e => json_eqb (JObj (e_store e)) (JObj (pruned_store schema_files r map_properties reach_fuel))
+            && json_eqb (e_root e) (spec_root r)
+  | Err _ => false
+  end.
+
+Lemma spec_check_reps : forallb spec_check shipped_reps = true.
+Proof. vm_compute. reflexivity. Qed.
+
+Lemma map_properties_bounded : bounded shipped_B map_properties = true.
+Proof. vm_compute. reflexivity. Qed.
+
+Lemma spec_check_rep (r : num) : In r shipped_reps -> spec_check r = true.
+Proof.
+  intros Hin. pose proof spec_check_reps as Hc. rewrite forallb_forall in Hc. exact (Hc r Hin).
+Qed.
+
+Lemma spec_check_sound (r : num) e :
+  spec_check r = true -> prune_entry r map_entry = Ok e ->
+  e_store e = pruned_store schema_files r map_properties reach_fuel /\ e_root e = spec_root r.
+Proof.
+  unfold spec_check. intros Hc He. rewrite He in Hc. rewrite andb_true_iff in Hc. destruct Hc as [H1 H2].
+  apply json_eqb_eq in H1. apply json_eqb_eq in H2. split; [congruence|exact H2].
+Qed.
+
+Lemma spec_root_param (v r : num) : vsame shipped_B v r -> spec_root v = spec_root r.
+Proof.
+  intros Hs. unfold spec_root.
+  rewrite (lprune_param shipped_B schema_files v r shipped_defaults Hs shipped_store_bounded _ map_properties_bounded).
+  reflexivity.
+Qed.
+
+(* for EVERY version: which files the traversal prunes and what it does to each *)
+Lemma prune_spec_shipped (v : num) e :
+  prune_entry v map_entry = Ok e ->
+  e_store e = pruned_store schema_files v map_properties reach_fuel /\ e_root e = spec_root v.
+Proof.
+  intros He. destruct (shipped_rep v) as (r & Hin & Hs).
+  rewrite (map_prune_param v r Hs) in He.
+  destruct (spec_check_sound r e (spec_check_rep r Hin) He) as [H1 H2].
+  rewrite (pruned_store_param shipped_B schema_files v r _ _ shipped_defaults Hs shipped_store_bounded).
+  rewrite (spec_root_param v r Hs). auto.
+Qed.
+
+(* the files reached through object values only from map's "properties", and
+   the block files left alone (none of them carries an annotation that matters:
+   see map_check_reps, which compares with the everywhere-pruned tree) *)
+Definition map_reached : list str := reach schema_files reach_fuel (dict_refs map_properties) [].
+
+(* every file of the map schema that carries an annotation inside is reached through
+   object values only (so it is pruned although some referrers sit in lists) *)
+Fixpoint all_refs (j : json) : list str :=
+  match j with
+  | JObj l =>
+      match ref_of j with
+      | Some f => [f]
+      | None => (fix go (l : list (str * json)) : list str :=
+                   match l with [] => [] | (_, x) :: l' => all_refs x ++ go l' end) l
+      end
+  | JArr l => (fix go (l : list json) : list str :=
+                 match l with [] => [] | x :: l' => all_refs x ++ go l' end) l
+  | _ => []
+  end.
+
+Fixpoint reach_all (n : nat) (todo seen : list str) : list str :=
+  match n with
+  | O => seen
+  | S n' =>
+      match todo with
+      | [] => seen
+      | f :: todo' =>
+          if mem_str f seen then reach_all n' todo' seen
+          else match assoc f schema_files with
+               | Some c => reach_all n' (all_refs c ++ todo') (f :: seen)
+               | None => reach_all n' todo' seen
+               end
+      end
+  end.
+
+Definition map_reached_all : list str := reach_all reach_fuel (all_refs schema_map) [].
+(* an annotation below the file's own root (the root's own metadata is judged
+   where the file is referred to, not inside it) *)
+Definition inner_bounds (c : json) : list num :=
+  match c with
+  | JObj l => flat_map (fun kv => if str_eqb (fst kv) K_metadata then [] else jbounds (snd kv)) l
+  | _ => []
+  end.
+Definition file_annotated (f : str) : bool :=
+  match assoc f schema_files with Some c => negb (is_nil (inner_bounds c)) | None => false end.
+
+Lemma all_blocks_dict_reachable :
+  forallb (fun f => negb (file_annotated f) || mem_str f map_reached) map_reached_all = true /\
+  existsb file_annotated map_reached_all = true.
+Proof. split; vm_compute; reflexivity. Qed.
